@@ -62,13 +62,14 @@ func main() {
 		r.Assume("drain-then-silence: when Stop returns the 1-slot channel holds at most one tick; after it has been taken out, any further tick received from that ticker was sent after Stop returned, whatever timestamp it carries (also: two or more ticks received after Stop returned)")
 		r.Assume("regime rule: a tick stamped T is legitimate only if some New/Reset call (begun at b, with d and jitter) has b + (d - jitter) <= T and the call that closed that regime (the next Reset or Stop) had not yet returned at T; this covers ticks after Stop, ticks too early after a Reset (measured from before the Reset call), and Reset after Stop (the ticker runs again with the new period)")
 		r.Assume("Stop on a stopped ticker ({Stop, Stop}, also on a fresh ticker, and followed by Reset) must not panic and must leave the ticker usable: the call after a double Stop runs under the goroutine-dump verdict (parked on the ticker's mutex for good = violation)")
+		r.Assume("a Reset / NewJitterTicker with d <= 0 or jitter >= d must panic (documented) and opens no regime: the ticker keeps the period it had, stays usable, and its ticks are judged against the old regime; negative jitter is not generated (the documentation does not say it panics; the code treats it like 0)")
 		r.Assume("that ticks keep arriving at all (liveness) is not part of the statement: a phase that sees no tick for 5 s is counted, not judged")
 
 		for _, g := range []struct {
 			name string
 			run  func(*vkit.Report)
 		}{{"regress", regress}, {"sleep+extreme", sleepCases}, {"gate", gateCases}, {"stress", stressCases}, {"ticker-extreme", tickerExtremes},
-			{"near", nearCases}, {"pool", poolCases}, {"ended-first", endedFirstCases}, {"lag", lagCases}, {"seq", seqCases}, {"outside", outside}} {
+			{"near", nearCases}, {"pool", poolCases}, {"ended-first", endedFirstCases}, {"lag", lagCases}, {"seq", seqCases}, {"refused", refusedCases}, {"outside", outside}} {
 			t := time.Now()
 			g.run(r)
 			r.Max("wall ms per group (slowest variant)", g.name, int(time.Since(t)/ms))
@@ -88,6 +89,8 @@ func main() {
 		r.Floor("control sequences run while the timer callback was held at ticker.fire", r.Table("seq", "sequences run while the callback was held at ticker.fire"), 1000)
 		r.Floor("tickers left stopped / Reset to 1h by a control sequence and looked at again", r.Table("seq", "tickers (stopped / Reset to 1h) looked at again >= 3 ms after the drain"), 1000)
 		r.Floor("control sequences with a Stop on a stopped ticker", r.Table("seq", "sequences with a Stop on a stopped ticker"), 300)
+		r.Floor("lives judged against the old regime after a refused (panicking) Reset / New", r.Table("refused", "lives judged against the old regime after a refused call"), 600)
+		r.Floor("refused calls made while the timer callback was held at ticker.fire", r.Table("refused", "refused call made: callback held at ticker.fire"), 200)
 		r.Floor("pool rounds (SleepContext ended at d+-30us, then plain sleeps)", r.Table("pool", "rounds"), 2000)
 		r.Floor("lagging-receiver tickers stopped at the second firing and looked at again", r.Table("lag", "stopped tickers looked at again >= 20 ms after the drain"), 5000)
 		r.Floor("JitterTicker lives with d >= MaxInt64/4", r.Table("ticker", "lives with d >= MaxInt64/4"), 8)
@@ -328,7 +331,7 @@ func expiredDeadline(kind int) time.Time {
 var expiredDs = []time.Duration{1, 1 * ms, 4 * time.Second, time.Hour, 1 << 62, maxD - 1, maxD}
 
 func sleepCases(r *vkit.Report) {
-	n := r.Scale(700, 5000)
+	n := r.Scale(700, 4000)
 	r.Cases("sleep", n, 1, func(c *vkit.Case) {
 		class := c.Rand.Weighted([]int{5, 3, 3, 5, 3, 3, 2, 4, 3})
 		sleepCase(c, class, nil)
